@@ -131,33 +131,74 @@ class Args:
 def apply_op(cm, motl, op, args, variant):
     """Performs the filter call on the live Motl; returns the Motl holding the result."""
     name = op["name"]
+    # every optional argument appears given and omitted (and, where it is a default, given with its default value)
     if name == "oob":
         d = args.get_dims()
+        box = op["box"]
         if op["kind"] == "center":
-            if variant % 2:
+            # a box size given together with 'center' must be ignored (only the centre has to be inside)
+            v = variant % 4
+            if box:
+                if v == 0:
+                    motl.remove_out_of_bounds_particles(d, boundary_type="center", box_size=box)
+                elif v == 1:
+                    motl.remove_out_of_bounds_particles(d, box_size=box)
+                elif v == 2:
+                    motl.remove_out_of_bounds_particles(d, "center", box)
+                else:
+                    motl.remove_out_of_bounds_particles(dimensions=d, boundary_type="center", box_size=box)
+            elif v == 0:
                 motl.remove_out_of_bounds_particles(d)
-            else:
+            elif v == 1:
                 motl.remove_out_of_bounds_particles(d, boundary_type="center")
+            elif v == 2:
+                motl.remove_out_of_bounds_particles(d, "center", None)
+            else:
+                motl.remove_out_of_bounds_particles(d, boundary_type="center", box_size=None)
+        elif variant % 2:
+            motl.remove_out_of_bounds_particles(d, boundary_type="whole", box_size=box)
         else:
-            motl.remove_out_of_bounds_particles(d, boundary_type="whole", box_size=op["box"])
+            motl.remove_out_of_bounds_particles(d, "whole", box)
         return motl
     if name == "trim":
-        if variant % 2:
+        v = variant % 3
+        if v == 0:
             motl.adapt_to_trimming(np.array(op["start"]), np.array(op["end"]))
-        else:
+        elif v == 1:
             motl.adapt_to_trimming(list(op["start"]), list(op["end"]))
+        else:
+            motl.adapt_to_trimming(trim_coord_start=np.array(op["start"], dtype=float), trim_coord_end=tuple(op["end"]))
         return motl
     if name == "points":
         pts = args.get_points(op)
-        if variant % 2:
-            return motl.clean_by_distance_to_points(pts, op["r"] / U, inplace=False)
-        motl.clean_by_distance_to_points(pts, op["r"] / U)
+        r = op["r"] / U
+        v = variant % 6
+        if v == 0:
+            motl.clean_by_distance_to_points(pts, r)
+        elif v == 1:
+            return motl.clean_by_distance_to_points(pts, r, inplace=False)
+        elif v == 2:
+            motl.clean_by_distance_to_points(pts, r, feature_id="tomo_id", inplace=True, output_file=None)
+        elif v == 3:
+            return motl.clean_by_distance_to_points(pts, radius_in_voxels=r, feature_id="tomo_id", inplace=False, output_file=None)
+        elif v == 4:
+            motl.clean_by_distance_to_points(pts, r, "tomo_id")
+        else:
+            motl.clean_by_distance_to_points(points=pts, radius_in_voxels=r, output_file=None)
         return motl
     if name == "mask":
         tomo_list, arg = args.get_masks(op)
-        if variant % 5 == 0:
+        v = variant % 5
+        if v == 0:
             return motl.clean_by_tomo_mask(tomo_list, arg, inplace=False)
-        motl.clean_by_tomo_mask(tomo_list, arg)
+        if v == 1:
+            return motl.clean_by_tomo_mask(tomo_list, arg, inplace=False, output_file=None)
+        if v == 2:
+            motl.clean_by_tomo_mask(tomo_list, arg, inplace=True, output_file=None)
+        elif v == 3:
+            motl.clean_by_tomo_mask(tomo_list=tomo_list, tomo_masks=arg)
+        else:
+            motl.clean_by_tomo_mask(tomo_list, arg)
         return motl
     raise core.MachineryError("unknown op %r" % (op,))
 
@@ -410,7 +451,8 @@ def gen_case(rng, idx, big):
     for name in names:
         if name == "oob":
             kind = rng.choice(["center", "whole", "whole"]) if len(names) > 1 else rng.choice(["center", "whole"])
-            ops.append({"name": "oob", "kind": kind, "box": rng.choice([2, 4, 6, 8, 10, 16]) if kind == "whole" else 0})
+            box = rng.choice([2, 4, 6, 8, 10, 16]) if (kind == "whole" or rng.random() < 0.5) else 0
+            ops.append({"name": "oob", "kind": kind, "box": box})      # centre + box: the box must be ignored
         elif name == "trim":
             m = [max(d[i + 1] for d in dims) for i in range(3)]
             if len(names) > 1:                     # a mild trim, so that later calls still see particles
@@ -443,7 +485,8 @@ def run(ctx):
                 "by TLC from SpatialFilter.tla.  distinct = distinct (list, dimensions, call) cases")
     ctx.assumptions += [
         "inside <=> 0 <= c < dim on every axis (complete position c, the particle's own tomogram)",
-        "'whole' uses half-width box/2; box sizes are even (odd sizes flagged ambiguous by the spec and not run)",
+        "'whole' uses half-width box/2; box sizes are even (odd sizes flagged ambiguous by the spec and not run); "
+        "a box size given with boundary type 'center' is ignored",
         "trimming acts on x,y,z: kept iff start <= x <= end, survivors get x - (start - 1)",
         "reference points remove at distance <= r, including particles exactly on the radius (lattice coordinates and "
         "radii make d = r exact in binary floating point; ties are generated from Pythagorean offsets)",
